@@ -31,9 +31,14 @@ def grid(cells, h, w, f=lambda x: x):
     return [[f(cells[y * w + x]) for x in range(w)] for y in range(h)]
 
 
-def rooms_of(rgs, w):
+def rooms_of(rgs, w, variant=0):
+    """the rooms of a restricted growth string; variant 1 reverses the cells inside each room, 2 the order of the rooms,
+    3 both (the codecs must not depend on either order)"""
     k = max(rgs) + 1 if rgs else 0
-    return [[(c // w, c % w) for c in range(len(rgs)) if rgs[c] == b] for b in range(k)]
+    rooms = [[(c // w, c % w) for c in range(len(rgs)) if rgs[c] == b] for b in range(k)]
+    if variant in (1, 3):
+        rooms = [list(reversed(r)) for r in rooms]
+    return rooms
 
 
 def split_url(url):
@@ -85,7 +90,7 @@ def run_case(case):
                 rec["legacy_applicable"] = True
                 legacy = util.encode_array(arr, empty=empty, dim=2)
         elif mod in ("lits", "norinori"):
-            rooms = rooms_of(case["rgs"], w)
+            rooms = rooms_of(case["rgs"], w, sum(case["rgs"]) % 2)
             f = lits if mod == "lits" else norinori
             ser, des = (f.serialize_lits, f.deserialize_lits) if mod == "lits" else (f.serialize_norinori, f.deserialize_norinori)
             url = ser(h, w, rooms)
@@ -102,8 +107,12 @@ def run_case(case):
             rec["legacy_applicable"] = True
             legacy = util.encode_grid_segmentation(h, w, util.blocks_to_block_id(h, w, rooms))
         elif mod == "heyawake":
-            rooms = rooms_of(case["rgs"], w)
-            url = heyawake.serialize_heyawake(h, w, rooms, list(case["vals"]))
+            variant = (len(case["rgs"]) + sum(case["rgs"]) + sum(v for v in case["vals"] if v > 0)) % 4
+            rooms = rooms_of(case["rgs"], w, variant)
+            vals = list(case["vals"])
+            if variant in (2, 3):
+                rooms, vals = list(reversed(rooms)), list(reversed(vals))
+            url = heyawake.serialize_heyawake(h, w, rooms, vals)
             rec["has_decoder"] = True
             try:
                 d = heyawake.deserialize_heyawake(url)
